@@ -35,19 +35,22 @@ type Step struct {
 	Inst  int         `json:"inst"`
 	Call  runner.Call `json:"call"`
 	Close bool        `json:"close,omitempty"` // the instance closes itself instead of calling
+	Renew bool        `json:"renew,omitempty"` // with Close: a new instance takes the closed one's place at once (instance churn)
 }
 
 // Case is the replayable form.
 type Case struct {
-	Module  *wasmgen.Module `json:"module"`
-	Other   *wasmgen.Module `json:"other,omitempty"` // different module for the other instances (nil = same compiled module)
-	Engine  string          `json:"engine"`
-	N       int             `json:"n"`
-	Steps   []Step          `json:"steps"` // Inst 0 steps form the script S
-	Fuel    int32           `json:"fuel"`
-	TwoRT   bool            `json:"two_runtimes_shared_cache"`
-	Recreat bool            `json:"fresh_instance_afterwards"`
-	Lazy    bool            `json:"lazy_instantiation"` // other instances are created at their first step, not up front
+	Module           *wasmgen.Module `json:"module"`
+	Other            *wasmgen.Module `json:"other,omitempty"` // different module for the other instances (nil = same compiled module)
+	Engine           string          `json:"engine"`
+	N                int             `json:"n"`
+	Steps            []Step          `json:"steps"` // Inst 0 steps form the script S
+	Fuel             int32           `json:"fuel"`
+	TwoRT            bool            `json:"two_runtimes_shared_cache"`
+	Recreat          bool            `json:"fresh_instance_afterwards"`
+	Lazy             bool            `json:"lazy_instantiation"`          // other instances are created at their first step, not up front
+	CapMax           bool            `json:"capacity_from_max,omitempty"` // all runtimes (also the lone one) pre-allocate memory capacity (limit 64 pages)
+	CloseOthersFirst bool            `json:"close_others_before_fresh,omitempty"`
 }
 
 type obs struct {
@@ -69,8 +72,11 @@ func (a obs) diff(b obs, an, bn string) string {
 	return ""
 }
 
-func newRT(ctx context.Context, engine string, cache wazero.CompilationCache) wazero.Runtime {
+func newRT(ctx context.Context, engine string, cache wazero.CompilationCache, capMax bool) wazero.Runtime {
 	cfg := wz.Config(engine)
+	if capMax {
+		cfg = cfg.WithMemoryCapacityFromMax(true).WithMemoryLimitPages(64)
+	}
 	if cache != nil {
 		cfg = cfg.WithCompilationCache(cache)
 	}
@@ -91,7 +97,7 @@ func script(c *Case) []runner.Call {
 
 // lone runs S on a single instance in a fresh runtime.
 func lone(ctx context.Context, c *Case) (obs, string) {
-	rt := newRT(ctx, c.Engine, nil)
+	rt := newRT(ctx, c.Engine, nil, c.CapMax)
 	defer rt.Close(ctx)
 	s, err := runner.NewSession(ctx, rt, c.Module)
 	if err != nil {
@@ -123,11 +129,11 @@ func RunCase(c *Case) (string, []string, bool) {
 		cache = wazero.NewCompilationCache()
 		defer cache.Close(ctx)
 	}
-	rtA := newRT(ctx, c.Engine, cache)
+	rtA := newRT(ctx, c.Engine, cache, c.CapMax)
 	defer rtA.Close(ctx)
 	rtB := rtA
 	if c.TwoRT {
-		rtB = newRT(ctx, c.Engine, cache)
+		rtB = newRT(ctx, c.Engine, cache, c.CapMax)
 		defer rtB.Close(ctx)
 	}
 	sA, err := runner.NewSession(ctx, rtA, c.Module)
@@ -164,6 +170,7 @@ func RunCase(c *Case) (string, []string, bool) {
 		}
 	}
 	othersMutated := false
+	churn := 0
 	for _, st := range c.Steps {
 		if st.Inst >= c.N {
 			continue
@@ -175,6 +182,13 @@ func RunCase(c *Case) (string, []string, bool) {
 		if st.Close {
 			if st.Inst != 0 && sl.in.Mod != nil {
 				sl.in.Mod.Close(ctx)
+				if st.Renew {
+					if tr := sl.in.Finish(ctx); tr.HasKind(wz.KInternal) {
+						return fmt.Sprintf("internal failure in instance %d: %v %v", st.Inst, tr.Inst, tr.Steps), nil, false
+					}
+					mk(st.Inst)
+					churn++
+				}
 			}
 			continue
 		}
@@ -210,6 +224,14 @@ func RunCase(c *Case) (string, []string, bool) {
 	labels := []string{fmt.Sprintf("n=%d", c.N)}
 	if c.Recreat {
 		// a fresh instance of the same compiled module must still start from the pristine state
+		if c.CloseOthersFirst {
+			for i := 1; i < c.N; i++ {
+				if slots[i] != nil && slots[i].in.Mod != nil {
+					slots[i].in.Mod.Close(ctx)
+				}
+			}
+			labels = append(labels, "others-closed-before-fresh")
+		}
 		var so, se bytes.Buffer
 		in := sA.Instantiate(ctx, wazero.NewModuleConfig().WithStdout(&so).WithStderr(&se))
 		for _, call := range script(c) {
@@ -225,6 +247,12 @@ func RunCase(c *Case) (string, []string, bool) {
 	}
 	if c.TwoRT {
 		labels = append(labels, "two-runtimes-shared-cache")
+	}
+	if c.CapMax {
+		labels = append(labels, "capacity-from-max")
+	}
+	if churn > 0 {
+		labels = append(labels, "instance-churn")
 	}
 	if c.Lazy {
 		labels = append(labels, "instances-created-mid-history")
@@ -296,6 +324,8 @@ func prop(t *rapid.T) {
 	}
 	c.Recreat = c.Other == nil && rapid.Bool().Draw(t, "fresh")
 	c.Lazy = rapid.Bool().Draw(t, "lazy")
+	c.CapMax = rapid.IntRange(0, 2).Draw(t, "capmax") == 0
+	c.CloseOthersFirst = c.Recreat && rapid.Bool().Draw(t, "closefirst")
 	om := m
 	if c.Other != nil {
 		om = c.Other
@@ -307,8 +337,8 @@ func prop(t *rapid.T) {
 		if inst != 0 {
 			mod = om
 		}
-		if inst != 0 && rapid.IntRange(0, 11).Draw(t, "close") == 0 {
-			c.Steps = append(c.Steps, Step{Inst: inst, Close: true})
+		if inst != 0 && rapid.IntRange(0, 7).Draw(t, "close") == 0 {
+			c.Steps = append(c.Steps, Step{Inst: inst, Close: true, Renew: rapid.Bool().Draw(t, "renew")})
 			continue
 		}
 		ex := mod.Exports()
@@ -337,6 +367,16 @@ func TestReplay(t *testing.T) {
 	p := evid.ReplayPath()
 	if p == "" {
 		t.Skip()
+	}
+	var wc struct {
+		Wasi *WCase `json:"wasi"`
+	}
+	if _, err := evid.LoadReplay(p, &wc); err == nil && wc.Wasi != nil {
+		if msg, _ := RunWasiCase(wc.Wasi); msg != "" {
+			evid.Violation("replay", &wc, "%s", msg)
+			t.Fatal(msg)
+		}
+		return
 	}
 	var c Case
 	if _, err := evid.LoadReplay(p, &c); err != nil {
